@@ -15,4 +15,4 @@ class Check(PropertyCheck):
     assumptions = ["page size >= 1 for a walk (page size 0 returns an empty page and never advances)"]
 
     def families(self, rng, tier):
-        return [("registry.walk", fam_registry.walk_cases(rng, tier))]
+        return [("registry.walk", fam_registry.walk_cases(rng.sub("walk_cases"), tier))]
